@@ -380,6 +380,9 @@ theorem cstep_base (s s' : CSt) (e : CEv) (hs : cstep s e = some s') : BaseMove 
       split at hs <;> try simp at hs
       obtain ⟨_, rfl⟩ := hs
       exact same rfl rfl (by simp) (by simp)
+  | probeProm a h v e =>
+    obtain ⟨rfl, _⟩ := probeProm_step s s' a h v e hs
+    exact same rfl rfl (by simp) (by simp)
   | probe v e =>
     simp only [cstep] at hs; split at hs <;> simp at hs; subst hs
     exact same rfl rfl (by simp) (by simp)
@@ -565,6 +568,7 @@ theorem lift_sim {μ : Type} (M : ObsMonitor Obs μ) (R : St → μ → Prop)
     | goRel a => exact ⟨hal', hR'⟩
     | goCb a => exact ⟨m, rfl, hal', hR'⟩
     | probeCtx a i c => exact ⟨m, rfl, hal', hR'⟩
+    | probeProm a h v x => exact ⟨m, rfl, hal', hR'⟩
   · subst he
     obtain ⟨pc1, l, f, sf, t, ht⟩ := hal.2 a0 c0 hc0
     rw [hth0] at ht; cases ht
@@ -672,6 +676,7 @@ theorem liftMon_rcBoth_run {μ ν : Type} (a : ObsMonitor Obs μ) (b : ObsMonito
     | cancelCall a' => simpa [liftMon] using ih m
     | cbinReleased a' => simpa [liftMon] using ih m
     | probeCtx a' i c => simpa [liftMon] using ih m
+    | probeProm a' h v x => simpa [liftMon] using ih m
 
 theorem liftMon_rcBoth_accepts {μ ν : Type} (a : ObsMonitor Obs μ) (b : ObsMonitor Obs ν) (h : List CObs) :
     (liftMon (a.rcBoth b)).accepts h = ((liftMon a).accepts h && (liftMon b).accepts h) := by
@@ -925,6 +930,7 @@ theorem np_sim_step (s : CSt) (e : CEv) (s' : CSt) (m : List Nat) (hR : NpOk s m
     | goRel a => exact hR'
     | goCb a => exact ⟨m, rfl, hR'⟩
     | probeCtx a i c => exact ⟨m, rfl, hR'⟩
+    | probeProm a h v x => exact ⟨m, rfl, hR'⟩
   · subst he
     refine ⟨m, rfl, hal', ?_⟩
     intro a ha
